@@ -85,3 +85,8 @@ def jobs(tier):
 ASSUMPTIONS = ['S1 numpy shim (array container only)', 'S2 exact arithmetic for float64 sums < 2^53',
                'weights: the concrete positive vectors listed in harness/c20.py:WEIGHTS (division by a symbolic weight is not encoded)']
 OUTSIDE = ['sum vectors longer than 5', 'weight vectors other than the listed concrete ones', 'numpy float64/int64 element semantics of array inputs']
+
+
+def post(tier, rc):
+    from .core import crosshair_post
+    return crosshair_post('C20', ['objectives_on_three_sums', 'objectives_sorted_fast_path'], tier, rc)
